@@ -220,6 +220,9 @@ def collision_scripts(rng, n):
                   f'lcd.animate("{rng.choice(["scroll", "blink", "bounce", "typewriter"])}", 0, "{rng.choice(["hi", "Reduino rocks"])}", speed_ms={rng.choice([50, 200])}, loop={rng.choice(["True", "False"])})',
                   "while True:", "    sleep(10)"]
         out.append("\n".join(L) + "\n")
+    # helpers whose return statements disagree on the type (rejected today: whatever happens instead must not depend on set order)
+    for a, b in (("[1, 2, 3]", "[0.5, 1.5, 2.5]"), ("[1, 2]", '["a", "b"]'), ('"a"', "2.5"), ("True", "[1]")):
+        out.append(HDR + f"def pick(k):\n    if k > 0:\n        return {a}\n    elif k < 0:\n        return {b}\n    return {a}\nxs = pick(1)\nys = pick(-1)\n")
     return out
 
 
